@@ -1,5 +1,6 @@
 SPECIFICATION Spec
 CONSTANTS
+  Emit = FALSE
   Lits = {"color", "COLOR", "c~olor", "left"}
   Values = {"red", "blue"}
   Prios = {"", "!important", "!IMPORTANT"}
